@@ -226,8 +226,9 @@ def tdiv(a, b):
     return q if (a < 0) == (b < 0) else -q
 
 
-def exact(op, x, y):
-    m = 1 << 256
+def exact(op, x, y, w=256):
+    """EVM / Yellow Paper value of the operation at width w (x / 0 = x % 0 = 0)"""
+    m = 1 << w
     if op == "mul":
         return (x * y) % m
     if op == "exp":
@@ -238,10 +239,23 @@ def exact(op, x, y):
         return x // y
     if op == "mod":
         return x % y
-    sx, sy = signed(256, x), signed(256, y)
+    sx, sy = signed(w, x), signed(w, y)
     if op == "sdiv":
         return tdiv(sx, sy) % m
     return (sx - sy * tdiv(sx, sy)) % m
+
+
+def smtlib_total(op, x, y, w=256):
+    """value of the bare SMT-LIB operator (bvudiv x 0 = ~0, bvurem x 0 = x, bvsdiv x 0 = 1 / ~0,
+    bvsrem x 0 = x): what a rewriting that forgets the EVM's zero case would make satisfiable"""
+    m = 1 << w
+    if y != 0 or op in ("mul", "exp"):
+        return exact(op, x, y, w)
+    if op == "div":
+        return m - 1
+    if op == "sdiv":
+        return 1 if signed(w, x) < 0 else m - 1
+    return x
 
 
 def gen_real_cases(tier, r):
@@ -257,12 +271,37 @@ def gen_real_cases(tier, r):
         pin = "both" if (big or y0 >= (1 << 200)) else r.choice(["x", "y", "both"])
         if op in ("div", "mod", "sdiv", "smod") and pin == "x":
             pin = "y"
-        cases.append({"op": op, "x0": x0, "y0": y0, "pin": pin, "r": exact(op, x0, y0), "solver": ["z3", "yices"][i % 2], "cache": i % 3 == 0})
+        # quick tier: z3 (seconds per 256-bit product / quotient) on two of the ten, yices on the rest
+        solver = ["z3", "yices"][i % 2] if tier != "quick" else ("z3" if i in (0, 3) else "yices")
+        if solver == "z3" and op != "mul":
+            pin = "both"      # z3 bit-blasts a 256-bit division with a free operand for tens of seconds
+        cases.append({"op": op, "x0": x0, "y0": y0, "pin": pin, "r": exact(op, x0, y0), "solver": solver, "cache": i % 3 == 0})
     cases.append({"op": "exp", "x0": 3, "y0": 2, "pin": "both", "r": 9, "solver": "z3", "cache": False})
     cases.append({"op": "exp", "x0": 3, "y0": 2, "pin": "x", "r": 9, "solver": "yices", "cache": False})
     # first answer sat (abstraction as a free function), refined query unsat: 2 * 3 = 7 has no model
     cases.append({"op": "mul", "x0": 2, "y0": 3, "pin": "both", "r": 7, "solver": "z3", "cache": True})
     cases.append({"op": "div", "x0": 7, "y0": 0, "pin": "both", "r": 1, "solver": "yices", "cache": False})
+    # every refinable abstraction at every width sevm declares it (ADDMOD / MULMOD use 264 / 512 bits):
+    # a zero divisor / modulus with the result the bare SMT-LIB operator would give (no EVM model
+    # exists, so no valid counterexample may come out), and the EVM result (must end valid)
+    wide = [("div", 256), ("mod", 256), ("sdiv", 256), ("smod", 256), ("mod", 264), ("mod", 512), ("mul", 512)]
+    k = 0
+    for op, w in wide:
+        reps = 1 if tier == "quick" else 6
+        for _ in range(reps):
+            x0 = r.choice([r.randrange(1, 1 << 16), r.randrange(1 << (w - 1), 1 << w)])
+            ys = ([0] if op != "mul" else []) + ([r.choice([1, 3, 7, r.randrange(1, 1 << 12)])] if (w != 256 or tier != "quick") else [])
+            for y0 in ys:
+                for rr in sorted({exact(op, x0, y0, w), smtlib_total(op, x0, y0, w)}):
+                    k += 1
+                    # z3 only where it answers at once (256-bit div / sdiv); yices everywhere else
+                    solver = "z3" if (w == 256 and op in ("div", "sdiv") and k % 2 == 0) else "yices"
+                    cases.append({"op": op, "w": w, "x0": x0, "y0": y0, "pin": "both", "r": rr, "solver": solver, "cache": k % 4 == 0})
+    # near misses with a non-zero divisor
+    for op in (["div", "smod"] if tier == "quick" else ops):
+        x0, y0 = r.randrange(1 << 200, 1 << 256), r.randrange(2, 1 << 12)
+        k += 1
+        cases.append({"op": op, "x0": x0, "y0": y0, "pin": "both", "r": (exact(op, x0, y0) + 1) % (1 << 256), "solver": "yices", "cache": False})
     return cases
 
 
@@ -276,9 +315,10 @@ def run_real(case, td):
     from halmos.solvers import SOLVERS
     from halmos.utils import create_solver
 
-    x = z3.BitVec("p_x_uint256_00", 256)
-    y = z3.BitVec("p_y_uint256_01", 256)
-    f = {"mul": f_mul[256], "div": f_div, "mod": f_mod[256], "sdiv": f_sdiv, "smod": f_smod, "exp": f_exp}[case["op"]]
+    w = case.get("w", 256)
+    x = z3.BitVec(f"p_x_uint{w}_00", w)
+    y = z3.BitVec(f"p_y_uint{w}_01", w)
+    f = {"mul": f_mul.get(w), "div": f_div, "mod": f_mod.get(w), "sdiv": f_sdiv, "smod": f_smod, "exp": f_exp}[case["op"]]
     path = Path(create_solver())
     path.append(f(x, y) == case["r"])
     if case["pin"] in ("x", "both"):
@@ -310,13 +350,20 @@ def run_real(case, td):
 # ----------------------------------------------------------------- X-fs (a dump directory that outlives a query)
 
 FS_SOLVER = r"""#!/bin/sh
-# scripted solver that answers by the `; key=K` line of the file it is HANDED
+# scripted solver that answers by the `; key=K` line of the file it is HANDED (K.r when the file
+# defines an f_evm_ function, i.e. is a refined query); shell builtins only, to keep it cheap
 D='@D@'
 f="$1"
-if [ ! -f "$f" ]; then echo "$(basename "$f") NOFILE" >> "$D/log"; echo '(error "no file")'; exit 0; fi
-k=$(sed -n 's/^; key=\(.*\)$/\1/p' "$f" | head -n 1)
-if grep -q '(define-fun f_evm_' "$f"; then k="$k.r"; fi
-echo "$(basename "$f") $k" >> "$D/log"
+if [ ! -f "$f" ]; then echo "${f##*/} NOFILE" >> "$D/log"; echo '(error "no file")'; exit 0; fi
+k=""; r=""; seen=""
+while IFS= read -r line || [ -n "$line" ]; do
+  case "$line" in
+    "; key="*) if [ -z "$seen" ]; then k="${line#; key=}"; seen=1; fi;;
+    *"(define-fun f_evm_"*) r=".r";;
+  esac
+done < "$f"
+k="$k$r"
+echo "${f##*/} $k" >> "$D/log"
 if [ -f "$D/ans/$k.sleep" ]; then sleep 4; fi
 if [ -f "$D/ans/$k.out" ]; then
   cat "$D/ans/$k.out"
@@ -356,7 +403,7 @@ def gen_sessions(tier, r):
     of a test, the probes of an invariant test, successive runs) and a sequence of path
     conditions solved in it.  Path ids restart / repeat, so files named like the current
     query's are usually there already, left by a DIFFERENT query."""
-    n = 24 if tier == "quick" else 300
+    n = 16 if tier == "quick" else 300
     sessions = []
     for si in range(n):
         pre = []
@@ -538,6 +585,14 @@ def run(rep, tier):
     import logging
 
     logging.getLogger("halmos").setLevel(logging.CRITICAL)  # scripted solver answers are deliberately odd
+    import time
+
+    phases, t_last = {}, [time.time()]
+
+    def phase(name):
+        phases[name] = round(time.time() - t_last[0], 1)
+        t_last[0] = time.time()
+
     b = common.build_property(PID, TRANSLATORS)
     common.standard_obligations(rep, PID, b)
     exe = None
@@ -555,6 +610,7 @@ def run(rep, tier):
         if nfail[0] <= 12:
             rep.fail(kind, what, case=case, **kw)
 
+    phase("build")
     # ---- X-const
     cases = const_cases(tier, r)
     mres = m.parallel_batch([("c04_parse_const", txt(s)) for s, _ in cases]) if m else None
@@ -571,6 +627,7 @@ def run(rep, tier):
             if mv != got:
                 fail("broken-tie", f"parse_const_value({s[:80]!r}): implementation {got}, model {mv}", {"const": s, "implementation": got, "model": mv})
 
+    phase("const")
     # ---- X-model
     outs = model_outputs(tier, r)
     calls, meta = [], []
@@ -599,6 +656,7 @@ def run(rep, tier):
             if mv != have:
                 fail("broken-tie", f"parse_model_str entry {name}: implementation {have}, model {mv} on {outs[k]['text'][:300]!r}", {"model_output": outs[k]["text"], "name": name})
 
+    phase("model")
     # ---- X-print
     from halmos.solvers import SOLVERS
 
@@ -627,6 +685,7 @@ def run(rep, tier):
             if mo is None or untxt(mo) != vt:
                 fail("broken-tie", f"{sname} prints {vt[:80]!r} for ({w} bits, {n}); the Spec printer gives {None if mo is None else untxt(mo)[:80]!r}", {"print": [sname, w, n]})
 
+    phase("print")
     # ---- X-e2e scripted
     td = tempfile.mkdtemp(prefix="c04_")
     keys = list(CANNED)
@@ -664,6 +723,7 @@ def run(rep, tier):
             if want != have:
                 fail("broken-tie", f"solve_end_to_end on {c}: implementation {have}, model {want}", {"scripted": c, "implementation": have, "model": want})
 
+    phase("scripted")
     # ---- X-fs: sequences of queries solved in one dump directory
     sessions = gen_sessions(tier, r)
     fcalls, fmeta = [], []
@@ -714,16 +774,18 @@ def run(rep, tier):
                 diff = None if want is None else {k: (have[k], want[k]) for k in have if want[k] != have[k]}
                 fail("broken-tie", f"solve_end_to_end in a used dump directory, query {st['key']}: implementation vs model (implementation, model) differ in {str(diff)[:600]}", case)
 
+    phase("fs")
     # ---- X-e2e with the real solvers
     rcases = gen_real_cases(tier, r)
     calls, robs = [], []
     for c in rcases:
         o = run_real(c, td)
         robs.append(o)
-        rep.count("real_e2e", f"{c['op']}/{c['solver']}")
+        rep.count("real_e2e", f"{c['op']}{c.get('w', 256)}/{c['solver']}" + ("" if c["r"] == exact(c["op"], c["x0"], c["y0"], c.get("w", 256)) else "/no-evm-model"))
         rep.case({"real": c}, nontrivial=True)
-        xs = {"x": (o["model"] or {}).get("p_x_uint256_00"), "y": (o["model"] or {}).get("p_y_uint256_01")}
-        consistent = c["r"] == exact(c["op"], c["x0"], c["y0"])
+        w = c.get("w", 256)
+        xs = {"x": (o["model"] or {}).get(f"p_x_uint{w}_00"), "y": (o["model"] or {}).get(f"p_y_uint{w}_01")}
+        consistent = c["r"] == exact(c["op"], c["x0"], c["y0"], w)
         if c["op"] == "exp":
             if o["result"] == 1 and o["valid"]:
                 fail("failing-input", f"a counterexample that depends on the exp abstraction was labelled valid: {c} -> {o['model']}", {"real": c, "implementation": o}, sig={"what": "valid-with-abstraction"})
@@ -739,7 +801,7 @@ def run(rep, tier):
                 fail("failing-input", f"a valid counterexample was reported for constraints that have no solution: {c} -> {o['model']}", {"real": c, "implementation": o}, sig={"what": "invalid-cex-valid"})
         if o["result"] == 1 and o["valid"] and c["op"] != "exp":
             # reproducibility on the exact constraints
-            if xs["x"] is None or xs["y"] is None or exact(c["op"], xs["x"], xs["y"]) != c["r"] \
+            if xs["x"] is None or xs["y"] is None or exact(c["op"], xs["x"], xs["y"], w) != c["r"] \
                     or (c["pin"] in ("x", "both") and xs["x"] != c["x0"]) or (c["pin"] in ("y", "both") and xs["y"] != c["y0"]):
                 fail("failing-input", f"the valid counterexample {xs} does not satisfy the exact constraints of {c}", {"real": c, "implementation": o["model"]}, sig={"what": "cex-not-reproducible"})
         if m is not None and o["out1"] is not None and o["result"] != 2:  # a solver timeout leaves no output to replay
@@ -758,7 +820,9 @@ def run(rep, tier):
             if want != have:
                 fail("broken-tie", f"solve_end_to_end with {c['solver']} on {c}: implementation {have}, model on the recorded solver outputs {want}", {"real": c, "implementation": have, "model": want})
     shutil.rmtree(td, ignore_errors=True)
-    rep.coverage["traces_validated_against_impl"] = len(scripted) + len(rcases) if m is not None else 0
+    phase("real")
+    rep.coverage["phase_seconds"] = phases
+    rep.coverage["traces_validated_against_impl"] = len(scripted) + len(rcases) + len(fcalls) if m is not None else 0
     return rep.finish(
         checker_cmd="make -C coq Props/C04.vo (coq_makefile, coqc 8.16.1) after regenerating coq/Gen/GenRefine.v from /repo/src/halmos/solve.py",
         trusted_base=common.TRUSTED_BASE_COMMON + ["the z3 and yices-smt2 binaries in /venv/bin as truthful solvers in the end-to-end part of the correspondence run"],
